@@ -8,14 +8,14 @@ MATCH = r"match_node_with_env"
 OPS_DECIDED_C04 = "frame law on trait Matcher (None => env unchanged; Some => env exactly the reference env) proved for &T, MatchAll, MatchNone, Op, Or, Not, And, All, Any"
 PROPS = {
     "C01": {
-        "units": [("ops", KINDS)],
+        "units": [("ops", KINDS), ("rule_core", KINDS + "|do_match|with_")],
         "kani": [],
         "decided": ["potential_kinds of every matcher in ops.rs/matcher.rs over-approximates the kinds of nodes it can match (trait-level ensures); All/Any cached kinds sound (type invariant established by new via compute_kinds)"],
         "not_decided": ["run.rs/scan.rs wiring, injected languages, ordering across files"],
         "assumptions": [],
     },
     "C04": {
-        "units": [("ops", MATCH)],
+        "units": [("ops", MATCH), ("rule_core", MATCH + "|do_match")],
         "kani": [],
         "decided": [OPS_DECIDED_C04],
         "not_decided": ["relational rules / ReferentRule / StopBy::find (closures capturing &mut env): frame assumed"],
